@@ -163,6 +163,27 @@ func main() {
 			}
 		}
 	}
+	// interim responses (103 Early Hints, 102 Processing) before the fault or the answer: an interim response is not the
+	// response, and whether it is relayed or dropped, nothing of a failed attempt may reach the client before the attempt
+	// that answers
+	if vlib.ReplayPath() == "" {
+		for _, engine := range []string{"sherpa", "olla"} {
+			for _, k := range []string{"reset0", "close0", "hdr-reset", "body-reset", "ok", "ok5xx"} {
+				for _, interim := range []int{103, 102} {
+					for _, two := range []bool{false, true} {
+						sc := &scen.Scenario{Engine: engine, Balancer: "priority", Profile: "auto", Method: "POST", Path: "/olla/proxy/v1/chat/completions", ReqBody: `{"interim":true}`}
+						e := mkEP(0, k, r, r.Bool(), "application/json")
+						e.Beh.Interim = interim
+						sc.EPs = append(sc.EPs, e)
+						if two {
+							sc.EPs = append(sc.EPs, mkEP(1, "ok", r, false, "application/json"))
+						}
+						scs = append(scs, sc)
+					}
+				}
+			}
+		}
+	}
 	// olla engine: the preferred endpoint's breaker was opened by a request history and its timeout has elapsed, so this
 	// request is the half-open probe; the probe dies at every fault point
 	if vlib.ReplayPath() == "" {
